@@ -702,6 +702,13 @@ func (k *vCtl) reqProjectors() {
 		k.hasProj[ch] = true
 		if w == "ok" {
 			k.sureProj[ch] = true // (no doubt about shapes, edge-multi or the source: the channel has a model now)
+			if !k.dead && k.gate() == "" && vChance(r, 0.5) {
+				// straight away: variable-length edge-multi records requested for this very channel must be refused
+				fts := FullTriggerState{ChannelIndices: []int{ch}}
+				fts.EdgeMulti, fts.EdgeMultiLevel, fts.EdgeMultiVerifyNMonotone, fts.EdgeMultiMakeShortRecords = true, 5, 1, true
+				k.c.Cov("variable_length_requests_on_channels_with_model", 1)
+				k.do(fmt.Sprintf("ConfigureTriggers([%d],edge-multi short=true on a channel with a model)", ch), "err", func() error { return k.sc.ConfigureTriggers(&fts, &okay) })
+			}
 		}
 	}
 }
